@@ -345,6 +345,8 @@ func chanOf(ty, id int) reflect.Value {
 	if ty == 1 {
 		return reflect.ValueOf(opqOf(2, id)) // shares identity with the `o2:<id>` leaves
 	}
+	storeMu.Lock()
+	defer storeMu.Unlock()
 	k := [2]int{ty, id}
 	if c, ok := chanStore[k]; ok {
 		return c
